@@ -295,6 +295,19 @@ let eval inp obs =
   | _ when has_tok "skipped=1" obs ->
     { default_verdict with model_obs = obs; indeterminate = true; nontrivial = false;
       note = "not run: the component hung or crashed three times earlier in this run" }
+  | "EBTORN" :: _ ->
+    (* all buffered events have the same size s: every state of the buffer's cache has Size = Num*s, so every pair
+       returned by Total() must (the recorded mid-push finding does not break this: Total() reads the pair in one
+       critical section of the cache).  torn=1 = a pair the cache never held. *)
+    let race = not (has_tok "race=0" obs) in
+    let crash = has_tok "crash=1" obs || has_tok "hang=1" obs in
+    let ok = (not race) && (not crash) && has_tok "torn=0" obs in
+    { default_verdict with
+      model_obs = (if ok then obs else ["race=0"; "torn=0"]);
+      spec_ok = Some ok; nontrivial = true;
+      note = (if has_tok "torn=1" obs then "Total() returned (Num,Size) = " ^ find_prefix "pair=" obs ^
+                " with every buffered event of size " ^ find_prefix "eventsize=" obs ^ ": not Num*size, a pair the cache never held"
+              else if race then "data race at " ^ find_prefix "at=" obs else if crash then "crash/hang" else "") }
   | kind :: _ when kind = "LIN" || kind = "STRESS" || kind = "EBMID" || kind = "SNAPMID" || kind = "POOLMID" || kind = "POOLRD" ->
     let race = not (has_tok "race=0" obs) in
     let crash = has_tok "crash=1" obs || has_tok "hang=1" obs in
